@@ -27,7 +27,7 @@ TECHNIQUE = "table agreement, def-use, call-graph closure; exhaustive quoting un
 EXPLANATION = (
     'STRUCTURAL: quote tables (escape + one distinct tail per row, forbidden characters have rows), de-quote tables are the'
     ' inverse, the de-quoting pattern is escape + one unit; on the normalised IRCClient every definition of the value hande'
-    'd to LineReceiver.sendLine passes lowQuote (def-use); only _reallySendLine or private helpers called from nothing else'
+    'd to LineReceiver.sendLine passes lowQuote (def-use) and no bounded slice is applied to a value carrying the line on that path; a compiled pattern the CTCP reader (de-quoters aside) applies to message text contains no any-character dot without DOTALL; only _reallySendLine or private helpers called from nothing else'
     ' write to the transport (call-graph closure); the rate-limit queue is filled at one end and drained from the other (op'
     'eration kinds). FINITE-EXHAUSTIVE (premise checked: quoters only apply .replace() rewrites, de-quoters decide on singl'
     'e units and constants): every table row, the concatenation of all rows, all 256 single units and every word <= 3 over '
@@ -35,7 +35,7 @@ EXPLANATION = (
     "ite domains; the arithmetic is the splitter's): width + prefix + CR LF <= length on a grid, msg/notice forwarding, spl"
     'it() chunk widths and content, real messages x lengths through _sendMessage -> split -> _reallySendLine (plain text wi'
     'thin budget; characters that quoting / UTF-8 expand exceed it: known finding F43), three queued lines leave in order, '
-    'wire form of sample lines. Not decided: textwrap internals, server-side IRC.sendLine.'
+    'wire form of sample lines incl. lines of 400-700 characters, long multi-octet messages decoded back from the wire, CTCP (tag, data) round trip with data over every character the quoting tables name (<= 2) and multi-line samples. Not decided: textwrap internals, server-side IRC.sendLine.'
 )
 ASSUMPTIONS = [
     "textwrap.wrap(text, width) returns chunks of at most width characters that together contain all non-whitespace characters in order (stdlib)",
@@ -569,7 +569,8 @@ def _check_ctcp_framing(ctx, env):
             for c in ast.walk(work.pop()):
                 if isinstance(c, ast.Call) and isinstance(c.func, ast.Name):
                     h = next((st for st in mod.tree.body if isinstance(st, ast.FunctionDef) and st.name == c.func.id), None)
-                    if h is not None and h not in readers:
+                    # the de-quoters have their own pattern rule (dequote/regex) and an exhaustive round trip; their '.' only ever follows the escape unit
+                    if h is not None and h not in readers and not h.name.lower().endswith("dequote"):
                         readers.append(h)
                         work.append(h)
         used = sorted({nm.id for f_ in readers for nm in ast.walk(f_) if isinstance(nm, ast.Name) and isinstance(env.get(nm.id), re.Pattern)})
@@ -696,8 +697,17 @@ MUTANTS = [
     Mutant("ctcp-extended-parts-not-dequoted", IRC, "    extended_messages[:] = list(map(ctcpDequote, extended_messages))\n", "", expect_rule="ctcp/extract-undoes-stringify"),
     Mutant("heartbeat-writes-raw", IRC, '        self.sendLine("PING " + self.hostname)\n', '        self.transport.write(("PING " + self.hostname).encode("utf-8") + b"\\r\\n")\n',
            expect_rule="send/single-wire-path"),
+    Mutant('encoded-line-clipped-to-510-octets-before-CR', IRC, '        quoteLine += b"\\r"\n        return basic.LineReceiver.sendLine(self, quoteLine)\n', '        quoteLine = quoteLine[:510]\n        quoteLine += b"\\r"\n        return basic.LineReceiver.sendLine(self, quoteLine)\n', expect_rule='send-defuse/nothing-cut-on-the-way-to-the-wire'),
+    Mutant('wire-call-gets-the-last-510-octets', IRC, '        quoteLine += b"\\r"\n        return basic.LineReceiver.sendLine(self, quoteLine)\n', '        quoteLine += b"\\r"\n        return basic.LineReceiver.sendLine(self, quoteLine[-511:])\n', expect_rule='send/wire-carries-whole-line'),
+    Mutant('sendLine-clips-the-text-to-500-characters', IRC, '        if self.lineRate is None:\n            self._reallySendLine(line)\n', '        if self.lineRate is None:\n            self._reallySendLine(line[:500])\n', expect_rule='send/message-reaches-wire-whole'),
+    Mutant('ctcp-tag-split-on-any-white-space', IRC, '        m = extended_messages[i].split(SPC, 1)\n', '        m = extended_messages[i].split(None, 1)\n', expect_rule='ctcp/extract-undoes-stringify'),
+    Mutant('ctcp-tag-and-data-by-pattern-whose-dot-stops-at-LF', IRC, '        m = extended_messages[i].split(SPC, 1)\n        tag = m[0]\n        if len(m) > 1:\n            data = m[1]\n        else:\n            data = None\n\n        extended_messages[i] = (tag, data)\n', '        tag, data = _tagThenData.match(extended_messages[i]).group(1, 2)\n        extended_messages[i] = (tag, data)\n', more=[(IRC, 'def ctcpExtract(message):\n', '_tagThenData = re.compile("([^ ]*)(?: (.*))?")\n\n\ndef ctcpExtract(message):\n')], expect_rule='ctcp/reader-regex-any-matches-all'),
 ]
 SILENT = [
+    Silent('ctcp-tag-and-data-by-pattern-with-DOTALL', IRC, '        m = extended_messages[i].split(SPC, 1)\n        tag = m[0]\n        if len(m) > 1:\n            data = m[1]\n        else:\n            data = None\n\n        extended_messages[i] = (tag, data)\n', '        tag, data = _tagThenData.match(extended_messages[i]).group(1, 2)\n        extended_messages[i] = (tag, data)\n', more=[(IRC, 'def ctcpExtract(message):\n', '_tagThenData = re.compile("([^ ]*)(?: (.*))?", re.DOTALL)\n\n\ndef ctcpExtract(message):\n')]),
+    Silent('ctcp-tag-and-data-by-partition', IRC, '        m = extended_messages[i].split(SPC, 1)\n        tag = m[0]\n        if len(m) > 1:\n            data = m[1]\n        else:\n            data = None\n\n        extended_messages[i] = (tag, data)\n', '        tag, sep, data = extended_messages[i].partition(SPC)\n        extended_messages[i] = (tag, data if sep else None)\n'),
+    Silent('encoded-line-copied-whole-then-CR-joined', IRC, '        quoteLine += b"\\r"\n        return basic.LineReceiver.sendLine(self, quoteLine)\n', '        quoteLine = b"".join([quoteLine[:], b"\\r"])\n        return basic.LineReceiver.sendLine(self, quoteLine)\n'),
+    Silent('low-dequote-pattern-with-inline-dotall-flag', IRC, 'mEscape_re = re.compile(f"{re.escape(M_QUOTE)}.", re.DOTALL)\n', 'mEscape_re = re.compile(f"(?s){re.escape(M_QUOTE)}.")\n'),
     Silent('one-wrapper-for-all-paragraphs', IRC, '    return [chunk for line in str.split("\\n") for chunk in textwrap.wrap(line, length)]\n', '    wrapper = textwrap.TextWrapper(width=length)\n    return list(itertools.chain.from_iterable(map(wrapper.wrap, str.split("\\n"))))\n'),
     Silent("lowquote-explicit-chain", IRC, "    for c in (M_QUOTE, NUL, NL, CR):\n        s = s.replace(c, mQuoteTable[c])\n    return s\n\n\ndef lowDequote",
            "    return s.replace(M_QUOTE, mQuoteTable[M_QUOTE]).replace(CR, mQuoteTable[CR]).replace(NUL, mQuoteTable[NUL]).replace(NL, mQuoteTable[NL])\n\n\ndef lowDequote"),
